@@ -180,7 +180,15 @@ def exec (sub : SubRun) (g : G) (f : Frame) (ins : Instr) : StepR :=
         | .ok kv => let (h', a) := g.heap.alloc (.dict kv); pushV { g with heap := h' } f' (.dict a)
         | .error e => err g f' e)
      | r => bad g f r)
-  | .pushConst v => pushV g f v
+  | .pushConst v =>
+    -- a computed-value literal yields a NEW computed value each time it is executed (same text and code, no attributes yet);
+    -- a function literal is the constant itself
+    (match v with
+     | .comp a =>
+       (match g.heap[a]? with
+        | some (.comp e _ code) => let (h', a') := g.heap.alloc (.comp e none code); pushV { g with heap := h' } f (.comp a')
+        | _ => pushV g f v)
+     | _ => pushV g f v)
   | .pushNull => pushV g f .null
   | .pushThis => pushV g f .local_
   | .pushRange =>
